@@ -13,6 +13,12 @@ EXTENDS Naturals, Sequences, FiniteSets
 Row(t, k, d) == [t |-> t, k |-> k, d |-> d]
 
 BodyC == {"minus", "plus", "zero"}
+\* a line that opens a file section: git's "diff" line, diff -ru's title line, or (plain diff -u
+\* without title lines) the "--- " line of the next file
+IsStart(l) == l.c \in {"diff", "du"} \/ l.kd = "dufile"
+Boundaryish(l) == IsStart(l) \/ l.c = "commit"
+\* lines whose text looks like a header but which are hunk lines (diff -u): removed "-- x", added "++ x"
+HunkC(c) == IF c = "minus3" THEN "minus" ELSE IF c = "plus3" THEN "plus" ELSE c
 SecTemplateLen(kd) ==
   CASE kd = "mod" -> 3 [] kd = "add" -> 4 [] kd = "addempty" -> 2 [] kd = "del" -> 4 [] kd = "rename" -> 3
     [] kd = "renmod" -> 6 [] kd = "copy" -> 3 [] kd = "modeonly" -> 2 [] kd = "modemod" -> 5 [] kd = "bin" -> 2
@@ -32,29 +38,41 @@ WantHeader(l) ==
     [] kd = "bin"                  -> <<f, f, "modified", 0, TRUE>>
     [] kd = "binadd"               -> <<0, f, "added", 0, TRUE>>
 
+\* diff -u / diff -ru sections: both paths are shown ("comparing" form)
+RECURSIVE FirstOf(_, _, _)
+FirstOf(h, j, cls) == IF j > Len(h) THEN 0 ELSE IF h[j].c = cls THEN j ELSE FirstOf(h, j + 1, cls)
+WantHeaderAt(h, k) ==
+  IF h[k].kd \in {"du", "dufile"}
+  THEN LET m == IF h[k].c = "mmm" THEN k ELSE FirstOf(h, k, "mmm") p == FirstOf(h, k, "ppp")
+       IN <<h[m].f, h[p].f, "comparing", 0, FALSE>>
+  ELSE WantHeader(h[k])
+
 \* index one past the last line of the section that starts at i
 RECURSIVE SecEnd(_, _)
-SecEnd(h, j) == IF j > Len(h) \/ h[j].c \in {"diff", "commit"} THEN j ELSE SecEnd(h, j + 1)
+SecEnd(h, j) == IF j > Len(h) \/ Boundaryish(h[j]) THEN j ELSE SecEnd(h, j + 1)
 
 \* the section starting at the "diff" line i is complete in h (all header lines, and a body
 \* line in every hunk if the kind has hunks)
 SecComplete(h, i) ==
   LET e == SecEnd(h, i + 1) kd == h[i].kd n == SecTemplateLen(kd) IN
+  IF kd \in {"du", "dufile"}
+  THEN \E j \in i..(e - 1) : h[j].c = "ppp" /\ j + 2 < e + 0 /\ h[j + 1].c = "hh"     \* has --- +++ and a hunk with a line
+  ELSE
   /\ e - i - 1 >= n
   /\ SecHasHunks(kd) => /\ e - i - 1 >= n + 2
                         /\ \A j \in (i + 1)..(e - 1) : h[j].c = "hh" => j + 1 < e /\ h[j + 1].c \in BodyC
 
 \* a hunk header must be shown iff its hunk has a line
-HunkShown(h, k) == k < Len(h) /\ h[k + 1].c \notin {"diff", "commit", "hh"}
+HunkShown(h, k) == k < Len(h) /\ ~Boundaryish(h[k + 1]) /\ h[k + 1].c # "hh"
 
 \* is line k inside a hunk (after a hunk header of the current section)?
 RECURSIVE InHunk(_, _)
-InHunk(h, k) == IF k = 0 \/ h[k].c \in {"diff", "commit"} THEN FALSE
+InHunk(h, k) == IF k = 0 \/ Boundaryish(h[k]) THEN FALSE
                 ELSE IF h[k].c = "hh" THEN TRUE ELSE InHunk(h, k - 1)
 \* is line k inside a file section's header block (after "diff", before any hunk)?
 RECURSIVE InHeader(_, _)
 InHeader(h, k) == IF k = 0 \/ h[k].c \in {"commit", "hh"} THEN FALSE
-                  ELSE IF h[k].c = "diff" THEN TRUE ELSE InHeader(h, k - 1)
+                  ELSE IF IsStart(h[k]) THEN TRUE ELSE InHeader(h, k - 1)
 
 \* ---- merge-conflict regions (combined diffs): the region that ends at line k ----
 ConfMarks == {"m_ours", "m_anc", "m_theirs", "m_end"}
@@ -74,7 +92,7 @@ ConflictRows(h, k) ==
      \o << Row("mergeHdr", k, <<>>) >> \o rows("minus", anc) \o rows("plus", theirs) \o << Row("bar", k, <<>>) >>
 RECURSIVE InConflict(_, _)
 \* is line k inside a conflict region that has not been closed yet?
-InConflict(h, k) == IF k = 0 \/ h[k].c \in {"diff", "commit", "hh", "m_end"} THEN FALSE
+InConflict(h, k) == IF k = 0 \/ Boundaryish(h[k]) \/ h[k].c \in {"hh", "m_end"} THEN FALSE
                     ELSE IF h[k].c = "m_ours" THEN TRUE ELSE InConflict(h, k - 1)
 
 \* Rows that line k of history h contributes, in place.
@@ -83,9 +101,11 @@ RowsOf(h, k) ==
   CASE c = "m_end" -> ConflictRows(h, k)
     [] c \in {"m_ours", "m_anc", "m_theirs", "cin"} -> << >>
     [] c = "commit" -> << Row("commit", k, <<>>) >>
-    [] c = "diff"   -> << Row("fileHdr", k, IF SecComplete(h, k) THEN WantHeader(h[k]) ELSE <<>>) >>
+    \* (a section that is cut off before it is complete may or may not get its header)
+    [] IsStart(h[k]) -> IF SecComplete(h, k) THEN << Row("fileHdr", k, WantHeaderAt(h, k)) >>
+                        ELSE << Row("fileHdrOpt", k, <<>>) >>
     [] c = "hh"     -> IF HunkShown(h, k) THEN << Row("hunkHdr", k, <<>>) >> ELSE << >>
-    [] c \in BodyC  -> << Row(c, k, <<>>) >>
+    [] HunkC(c) \in BodyC -> << Row(HunkC(c), k, <<>>) >>
     [] c = "nonl"   -> << Row("raw", k, <<>>) >>
     [] c \in {"other", "blank"} -> \* inside a header block the statement neither demands nor forbids the row
                                    << Row(IF InHeader(h, k - 1) THEN "rawopt" ELSE "raw", k, <<>>) >>
@@ -95,11 +115,22 @@ RECURSIVE ExpFrom(_, _)
 ExpFrom(h, k) == IF k > Len(h) THEN << >> ELSE RowsOf(h, k) \o ExpFrom(h, k + 1)
 Expected(h) == ExpFrom(h, 1)
 
-Required(rows) == SelectSeq(rows, LAMBDA r : r.t # "rawopt")
+Optional(r) == r.t \in {"rawopt", "fileHdrOpt"}
+BaseTag(t) == IF t = "rawopt" THEN "raw" ELSE IF t = "fileHdrOpt" THEN "fileHdr" ELSE t
+Required(rows) == SelectSeq(rows, LAMBDA r : ~Optional(r))
 
 \* Comparison that ignores the descriptor where Obs leaves it open (<<>>)
 RowOK(want, got) == want.t = got.t /\ want.k = got.k /\ (want.d = <<>> \/ want.d = got.d)
 SameRows(want, got) == Len(want) = Len(got) /\ \A i \in DOMAIN want : RowOK(want[i], got[i])
+\* the same, with optional wanted rows that may be absent
+RECURSIVE MatchOpt(_, _, _, _)
+MatchOpt(want, got, i, j) ==
+  IF i > Len(want) THEN j > Len(got)
+  ELSE IF j <= Len(got) /\ BaseTag(want[i].t) = got[j].t /\ want[i].k = got[j].k
+             /\ (want[i].d = <<>> \/ want[i].d = got[j].d) THEN MatchOpt(want, got, i + 1, j + 1)
+  ELSE IF Optional(want[i]) THEN MatchOpt(want, got, i + 1, j)
+  ELSE FALSE
+SameRowsOpt(want, got) == MatchOpt(want, got, 1, 1)
 
 (* C11.  `seen` = rows already written when k lines have been consumed.  Lines not yet   *)
 (* represented must be the open run of removed/added lines at the end of the input, at   *)
@@ -109,12 +140,12 @@ Represented(seen, k) == \E i \in DOMAIN seen : seen[i].k = k
 LagOK(h, seen, B) ==
   \* the statement speaks about prefixes that end inside a hunk (or in plain text); a prefix that
   \* ends in a header line is not constrained beyond PrefixStable
-  (Len(h) > 0 /\ h[Len(h)].c \in BodyC \cup {"nonl", "other", "blank", "commit"} /\ ~InConflict(h, Len(h))) =>
-  LET pend == {k \in DOMAIN h : h[k].c \in BodyC \cup {"nonl", "other", "blank", "commit"}
+  (Len(h) > 0 /\ h[Len(h)].c \in BodyC \cup {"minus3", "plus3", "nonl", "other", "blank", "commit"} /\ ~InConflict(h, Len(h))) =>
+  LET pend == {k \in DOMAIN h : h[k].c \in BodyC \cup {"minus3", "plus3", "nonl", "other", "blank", "commit"}
                                 /\ Required(RowsOf(h, k)) # <<>> /\ ~Represented(seen, k)} IN
-  /\ \A k \in pend : h[k].c \in {"minus", "plus"}
-  /\ \A k \in pend : \A j \in k..Len(h) : h[j].c \in {"minus", "plus"}
-  /\ Cardinality({k \in pend : h[k].c = "minus"}) <= B + 1
-  /\ Cardinality({k \in pend : h[k].c = "plus"}) <= B + 1
+  /\ \A k \in pend : HunkC(h[k].c) \in {"minus", "plus"}
+  /\ \A k \in pend : \A j \in k..Len(h) : HunkC(h[j].c) \in {"minus", "plus"}
+  /\ Cardinality({k \in pend : HunkC(h[k].c) = "minus"}) <= B + 1
+  /\ Cardinality({k \in pend : HunkC(h[k].c) = "plus"}) <= B + 1
 IsPrefixOf(a, b) == Len(a) <= Len(b) /\ \A i \in DOMAIN a : a[i] = b[i]
 =============================================================================
